@@ -190,7 +190,16 @@ def run(tier, seed, replay):
             Lba = FermionicBath(d1, [0.07, 0.11], [1.4, 0.9], [0.05, 0.12], [1.3, 0.8])
             Rr = FermionicBath(d2, [0.09], [1.1], [0.08], [1.2])
             reff = None
-            for nm, baths in (("[L, R]", [Lab, Rr]), ("[R, L]", [Rr, Lab]), ("[L pairs reversed, R]", [Lba, Rr]), ("[La, R, Lb]", [La, Rr, Lb]), ("[Lb, La, R]", [Lb, La, Rr])):
+            def grouped(fb):
+                """the same exponents and pairing with all '+' exponents listed before all '-' ones"""
+                from qutip.solver.heom import Bath
+                plus = [e for e in fb.exponents if e.type == BathExponent.types["+"]]
+                minus = [e for e in fb.exponents if e.type == BathExponent.types["-"]]
+                n_ = len(plus)
+                return Bath([BathExponent("+", e.dim, e.Q, e.ck, e.vk, sigma_bar_k_offset=n_) for e in plus]
+                            + [BathExponent("-", e.dim, e.Q, e.ck, e.vk, sigma_bar_k_offset=-n_) for e in minus])
+            for nm, baths in (("[L, R]", [Lab, Rr]), ("[R, L]", [Rr, Lab]), ("[L pairs reversed, R]", [Lba, Rr]), ("[La, R, Lb]", [La, Rr, Lb]), ("[Lb, La, R]", [Lb, La, Rr]),
+                              ("[L with '+' exponents before '-' ones, R]", [grouped(Lab), Rr]), ("[R, L grouped]", [Rr, grouped(Lab)])):
                 try:
                     with warnings.catch_warnings():
                         warnings.simplefilter("ignore")
